@@ -132,7 +132,8 @@ pub fn c06(g: &mut G) {
                 ks.push(keys[(x % 5) as usize].clone());
                 x /= 5;
             }
-            let ins: Vec<Call> = ks.iter().enumerate().map(|(j, k)| Call::Ins(k.clone(), j as u64 + 1)).collect();
+            // values decrease or increase along the sequence (a rejected duplicate may carry a smaller value)
+            let ins: Vec<Call> = ks.iter().enumerate().map(|(j, k)| Call::Ins(k.clone(), if idx % 2 == 0 { j as u64 + 1 } else { 10 * (len - j) as u64 })).collect();
             let adds: Vec<Call> = ks.iter().map(|k| Call::Add(k.clone())).collect();
             g.emit(build_line("map", 0, "default", "seq", &ins));
             g.emit(build_line("set", 0, "default", "seq", &adds));
@@ -259,10 +260,12 @@ pub fn c11(g: &mut G) {
         let w = measure_w(calls, &[]);
         let lim = if g.thorough { w } else { w.min(120) };
         for i in 0..lim {
-            for kind in 0..(if g.thorough { 4 } else { 2 }) {
+            // every error kind incl. WouldBlock; a cache that evicts on every compile for odd i
+            let geom = if i % 2 == 1 { "1x1" } else { "default" };
+            for kind in 0..(if g.thorough { 4 } else { 3 }) {
                 let mut script: Vec<Resp> = (0..i).map(|_| Resp::Take(1 << 20)).collect();
                 script.push(Resp::Fail(kind));
-                g.emit(format!("sink 0 default {} - _ {}", script_str(&script), ops));
+                g.emit(format!("sink 0 {} {} - _ {}", geom, script_str(&script), ops));
             }
             let mut script: Vec<Resp> = (0..i).map(|_| Resp::Take(1 << 20)).collect();
             script.push(Resp::Take(0));
